@@ -108,6 +108,7 @@ EXT_POOL = [
     "G10 P1 L2 X0.5", "G10 L2 P1 X0 Y0",      # tool / workspace offsets: not retractions (P or L present), passed through
     "M204 S.5", "M205 X-.25 Y5.", "M73 P+7 R007", "M900 K.08", "M205X8E5", "M204P500T1000",
     "M117 Layer (3/20)", "M118 (note) done", "M204", "M73", "M106",          # text with parentheses; configured codes without any parameter
+    "M73 P100 R0", "M205 S0 T0", "M73 P0 R90", "M204 S0",                    # parameters whose value is 0 (the slicer's last M73 says R0)
 ]
 
 
